@@ -15,6 +15,7 @@ import (
 
 	"github.com/logrange/logrange/pkg/scanner"
 	"github.com/logrange/logrange/pkg/scanner/parser"
+	"github.com/logrange/logrange/pkg/utils"
 	"verifharness/internal/lrsrv"
 	"verifharness/internal/vh"
 )
@@ -309,6 +310,7 @@ func sectionLineReader(rng *vh.Rng) {
 	}
 	res.Done(sec)
 	sectionParserPos(rng.Fork("parserpos"))
+	sectionTwoPiece(rng.Fork("twopiece"))
 }
 
 func replayLineReader(input json.RawMessage) {
@@ -507,27 +509,260 @@ func sectionParserPos(rng *vh.Rng) {
 }
 
 // ---------------------------------------------------------------------------------------------
+// a line that reaches a real file in two pieces, the second one arriving while the reader waits in its 200 ms pause
+// after the EOF (before its next poll): the record must be the file's bytes (payload compared, not only lengths)
+
+type twoPieceCase struct {
+	Format  string `json:"format"`
+	First   string `json:"first_hex"`   // complete lines
+	Partial string `json:"partial_hex"` // start of a line, no newline
+	Rest    string `json:"rest_hex"`    // its continuation, ends with a newline
+	DelayMs int    `json:"delay_ms"`
+}
+
+func runTwoPiece(c twoPieceCase) (impl string, err error) {
+	dir := lrsrv.NewDir()
+	defer os.RemoveAll(dir)
+	fn := filepath.Join(dir, "app.log")
+	first, partial, rest := vh.UnHx(c.First), vh.UnHx(c.Partial), vh.UnHx(c.Rest)
+	if err = os.WriteFile(fn, append(append([]byte{}, first...), partial...), 0644); err != nil {
+		return
+	}
+	p, err := parser.NewParser(&parser.Config{File: fn, MaxRecSizeBytes: 64, DataFmt: parser.DataFormat(c.Format)})
+	if err != nil {
+		return
+	}
+	defer p.Close()
+	ctx, cancel := context.WithTimeout(context.Background(), 5*time.Second)
+	defer cancel()
+	if err = p.SetStreamPos(0); err != nil {
+		return
+	}
+	var toks []string
+	want := bytes.Count(first, []byte{'\n'}) // complete lines are shorter than the record limit here
+	for k := 0; k < want; k++ {
+		rec, e := p.NextRecord(ctx)
+		if e != nil {
+			return "", fmt.Errorf("record %d: %v", k, e)
+		}
+		toks = append(toks, vh.Hx(rec.Data))
+	}
+	type out struct {
+		data []byte
+		err  error
+	}
+	ch := make(chan out, 1)
+	go func() {
+		rec, e := p.NextRecord(ctx) // sees the partial line at EOF, pauses, polls again
+		if e != nil {
+			ch <- out{nil, e}
+			return
+		}
+		ch <- out{append([]byte{}, rec.Data...), nil}
+	}()
+	time.Sleep(time.Duration(c.DelayMs) * time.Millisecond)
+	f, e := os.OpenFile(fn, os.O_APPEND|os.O_WRONLY, 0644)
+	if e != nil {
+		return "", e
+	}
+	f.Write(rest)
+	f.Close()
+	select {
+	case o := <-ch:
+		if o.err != nil {
+			toks = append(toks, "err")
+		} else {
+			toks = append(toks, vh.Hx(o.data))
+		}
+	case <-time.After(4 * time.Second):
+		toks = append(toks, "timeout")
+	}
+	return strings.Join(toks, " ") + fmt.Sprintf(" pos=%d", p.GetStreamPos()), nil
+}
+
+func sectionTwoPiece(rng *vh.Rng) {
+	sec := res.Section("twopiece", "unit-correspondence",
+		"the real pure/text parsers on a real file whose last line is written in two pieces: the reader sees the first piece at EOF and pauses (200 ms); the continuation (with the newline) is appended 20-80 ms later, before the next poll; the record's payload bytes and the position against the model (lr 64 0 <first+partial> E <rest>) and the SPEC (record = the file's bytes of that line). The unchanged code is correct whatever the timing; only the power to see an aliasing defect depends on the continuation arriving within the pause. non-trivial = every case")
+	n := 16
+	if args.Thorough {
+		n = 96
+	}
+	var cases []twoPieceCase
+	for _, raw := range lrCorpus("twopiece") {
+		var c twoPieceCase
+		if json.Unmarshal(raw, &c) == nil && c.Format != "" {
+			cases = append(cases, c)
+		}
+	}
+	rnd := func(n int) string {
+		var sb strings.Builder
+		for k := 0; k < n; k++ {
+			sb.WriteByte("abcdefghXYZ 0123;:"[rng.Intn(18)])
+		}
+		return sb.String()
+	}
+	for i := 0; i < n; i++ {
+		var first strings.Builder
+		for j := rng.Range(0, 2); j > 0; j-- {
+			first.WriteString(rnd(rng.Range(0, 40)) + "\n")
+		}
+		cases = append(cases, twoPieceCase{Format: rng.PickS([]string{"pure", "text"}), First: vh.HxS(first.String()),
+			Partial: vh.HxS(rnd(rng.Range(1, 30))), Rest: vh.HxS(rnd(rng.Range(1, 30)) + "\n"), DelayMs: rng.Range(20, 80)})
+	}
+	impls := make([]string, len(cases))
+	errs := make([]error, len(cases))
+	done := make(chan int, len(cases))
+	for i := range cases {
+		go func(i int) { impls[i], errs[i] = runTwoPiece(cases[i]); done <- i }(i)
+	}
+	for range cases {
+		<-done
+	}
+	var lines []string
+	for _, c := range cases {
+		lines = append(lines, fmt.Sprintf("lr 64 0 %s E %s", vh.Hx(append(vh.UnHx(c.First), vh.UnHx(c.Partial)...)), c.Rest))
+	}
+	var answers []string
+	if driverUsable() && len(lines) > 0 {
+		var err error
+		if answers, err = vh.Batch(args.Driver, lines); err != nil {
+			res.Fatal(args.Out, "driver: %v", err)
+		}
+	}
+	for i, c := range cases {
+		if errs[i] != nil {
+			res.Note("twopiece: %v", errs[i])
+			continue
+		}
+		res.Eval(sec, c.Format+c.First+c.Partial+c.Rest)
+		res.Dist(sec, c.Format)
+		eq := true
+		model := ""
+		if answers != nil {
+			model = modelUpToEOF(answers[i], 0)
+			model = strings.Replace(model, " eof pos=", " pos=", 1)
+			if model != impls[i] {
+				eq = false
+				res.Mismatch(vh.Mismatch{Section: "twopiece", Function: "parser.NextRecord on a line appended in two pieces (" + c.Format + ")", Input: c, Impl: impls[i], Model: model})
+			}
+		}
+		// SPEC
+		all := append(append(vh.UnHx(c.First), vh.UnHx(c.Partial)...), vh.UnHx(c.Rest)...)
+		var cat []byte
+		for _, t := range strings.Fields(impls[i]) {
+			if !strings.HasPrefix(t, "pos=") && t != "err" && t != "timeout" {
+				cat = append(cat, vh.UnHx(t)...)
+			}
+		}
+		if !bytes.Equal(cat, all) {
+			res.SpecFail(vh.SpecFailure{Section: "twopiece", Kind: "payload-differs-from-file", Input: c, Impl: impls[i], Spec: vh.Hx(all), Model: model, ImplEqModel: eq,
+				What: "the records handed over for a line that was appended in two pieces are not the file's bytes"})
+		}
+	}
+	res.Done(sec)
+}
+
+func replayTwoPiece(input json.RawMessage) {
+	var c twoPieceCase
+	if err := json.Unmarshal(input, &c); err != nil {
+		res.Fatal(args.Out, "replay twopiece: %v", err)
+	}
+	sec := res.Section("twopiece", "replay", "replay of one recorded two-piece line")
+	impl, err := runTwoPiece(c)
+	res.Eval(sec, "x")
+	fmt.Printf("impl: %s err=%v\n", impl, err)
+	all := append(append(vh.UnHx(c.First), vh.UnHx(c.Partial)...), vh.UnHx(c.Rest)...)
+	var cat []byte
+	for _, t := range strings.Fields(impl) {
+		if !strings.HasPrefix(t, "pos=") && t != "err" && t != "timeout" {
+			cat = append(cat, vh.UnHx(t)...)
+		}
+	}
+	if !bytes.Equal(cat, all) {
+		res.SpecFail(vh.SpecFailure{Section: "twopiece", Kind: "payload-differs-from-file", Input: c, Impl: impl, Spec: vh.Hx(all),
+			What: "the records handed over for a line that was appended in two pieces are not the file's bytes"})
+	}
+}
+
+// ---------------------------------------------------------------------------------------------
 // mergeDescs
+//
+// A case names its files by index into a pool of real files (so that the second os.Stat of fix f247e22 has something
+// to look at): "real sizes" are the pool files' sizes, the *scanned* size of a new descriptor may be stale (smaller),
+// equal, or larger (the file shrank after the scan). Ids are real (utils.GetFileId) or, with Fake, another id for the
+// same path (rotation: same name, new inode).
+
+type descIn struct {
+	File   int   `json:"file"` // index into the pool
+	Fake   bool  `json:"fake_id,omitempty"`
+	Offset int64 `json:"offset"`
+	Size   int64 `json:"size"` // LastSeenSize
+}
 
 type descsCase struct {
-	Old []scanner.VerifDesc `json:"old"`
-	New []scanner.VerifDesc `json:"new"`
+	Old []descIn `json:"old"`
+	New []descIn `json:"new"`
+}
+
+var descPoolSizes = []int64{0, 1, 10, 31, 64, 100}
+
+type descPool struct {
+	dir   string
+	files []string
+	ids   []string
+}
+
+func newDescPool() (*descPool, error) {
+	p := &descPool{dir: lrsrv.NewDir()}
+	for i, sz := range descPoolSizes {
+		fn := filepath.Join(p.dir, fmt.Sprintf("f%d.log", i))
+		if err := os.WriteFile(fn, bytes.Repeat([]byte{'x'}, int(sz)), 0644); err != nil {
+			return nil, err
+		}
+		fi, err := os.Stat(fn)
+		if err != nil {
+			return nil, err
+		}
+		p.files = append(p.files, fn)
+		p.ids = append(p.ids, utils.GetFileId(fn, fi))
+	}
+	return p, nil
+}
+
+func (p *descPool) desc(d descIn) scanner.VerifDesc {
+	id := p.ids[d.File]
+	if d.Fake {
+		id = "other_" + id
+	}
+	return scanner.VerifDesc{Id: id, File: p.files[d.File], Offset: d.Offset, LastSeenSize: d.Size}
+}
+
+// tag is the canonical (path-independent) name of an id for the model and for comparison
+func descTag(d descIn) string {
+	if d.Fake {
+		return fmt.Sprintf("o%d", d.File)
+	}
+	return fmt.Sprintf("r%d", d.File)
 }
 
 func descsLine(c descsCase) string {
 	var sb strings.Builder
 	fmt.Fprintf(&sb, "merge %d", len(c.Old))
 	for _, d := range c.Old {
-		fmt.Fprintf(&sb, " %s %d %d", vh.HxS(d.Id), d.Offset, d.LastSeenSize)
+		fmt.Fprintf(&sb, " %s %d %d", vh.HxS(descTag(d)), d.Offset, d.Size)
 	}
 	fmt.Fprintf(&sb, " %d", len(c.New))
 	for _, d := range c.New {
-		fmt.Fprintf(&sb, " %s %d %d", vh.HxS(d.Id), d.Offset, d.LastSeenSize)
+		restat := "-"
+		if !d.Fake { // the second stat finds the pool file and its real id
+			restat = fmt.Sprint(descPoolSizes[d.File])
+		}
+		fmt.Fprintf(&sb, " %s %d %d %s", vh.HxS(descTag(d)), d.Offset, d.Size, restat)
 	}
 	return sb.String()
 }
 
-func checkDescs(sec *vh.Section, cases []descsCase) {
+func checkDescs(sec *vh.Section, pool *descPool, cases []descsCase) {
 	lines := make([]string, len(cases))
 	for i, c := range cases {
 		lines[i] = descsLine(c)
@@ -541,14 +776,26 @@ func checkDescs(sec *vh.Section, cases []descsCase) {
 		}
 	}
 	for i, c := range cases {
-		got, kept := scanner.VerifMergeDescs(c.Old, c.New)
+		var old, new []scanner.VerifDesc
+		tagOf := map[string]string{}
+		for _, d := range c.Old {
+			v := pool.desc(d)
+			old = append(old, v)
+			tagOf[v.Id] = descTag(d)
+		}
+		for _, d := range c.New {
+			v := pool.desc(d)
+			new = append(new, v)
+			tagOf[v.Id] = descTag(d)
+		}
+		got, kept := scanner.VerifMergeDescs(old, new)
 		var toks []string
 		for j, d := range got {
 			k := 0
 			if kept[j] {
 				k = 1
 			}
-			toks = append(toks, fmt.Sprintf("%s:%d:%d:%d", vh.HxS(d.Id), d.Offset, d.LastSeenSize, k))
+			toks = append(toks, fmt.Sprintf("%s:%d:%d:%d", vh.HxS(tagOf[d.Id]), d.Offset, d.LastSeenSize, k))
 		}
 		impl := strings.Join(toks, " ")
 		if impl == "" {
@@ -564,35 +811,96 @@ func checkDescs(sec *vh.Section, cases []descsCase) {
 			eq = false
 			res.Mismatch(vh.Mismatch{Section: "descs", Function: "scanner.Scanner.mergeDescs", Input: c, Impl: impl, Model: answers[i]})
 		}
-		// SPEC: a file that is new under its id, or whose size shrank below what was seen / below the offset, starts at 0;
-		// a file that only grew keeps its offset
-		old := map[string]scanner.VerifDesc{}
+		// SPEC (independent of how the merge finds its size): (a) an id that is new starts at the scanned offset 0;
+		// (b) a file that only grew — seen size <= scanned size <= real size — whose offset is within the real size keeps
+		// its offset, however stale the scanned size is; (c) a file whose real and scanned sizes are both below the seen
+		// size or below the offset (truncated) starts at 0.
+		oldBy := map[string]descIn{}
 		for _, d := range c.Old {
-			old[d.Id] = d
+			oldBy[descTag(d)] = d
 		}
 		for j, d := range got {
 			nd := c.New[j]
-			od, known := old[d.Id]
-			want := nd.Offset
-			if known && od.LastSeenSize <= nd.LastSeenSize && od.Offset <= nd.LastSeenSize {
-				want = od.Offset
+			od, known := oldBy[descTag(nd)]
+			real := descPoolSizes[nd.File]
+			want, rule := int64(-1), ""
+			switch {
+			case !known:
+				want, rule = nd.Offset, "new id"
+			case !nd.Fake && od.Size <= nd.Size && nd.Size <= real && od.Offset <= real:
+				want, rule = od.Offset, "file only grew"
+			case (nd.Size < od.Size || nd.Size < od.Offset) && (nd.Fake || real < od.Size || real < od.Offset):
+				want, rule = nd.Offset, "file shrank"
 			}
-			if d.Offset != want {
+			if want >= 0 && d.Offset != want {
 				kind := "replaced-file-not-from-beginning"
-				if want != 0 {
+				if rule == "file only grew" {
 					kind = "grown-file-offset-lost"
 				}
-				res.SpecFail(vh.SpecFailure{Section: "descs", Kind: kind, Input: c, Impl: impl, Spec: fmt.Sprintf("offset %d for id %q", want, d.Id), ImplEqModel: eq,
-					What: "mergeDescs: a new or shrunk file must start at offset 0, a file that only grew keeps its offset"})
+				fid := ""
+				if kind == "grown-file-offset-lost" && od.Offset > nd.Size && eq {
+					fid = "F17b" // the stale-size class (fixed by f247e22): a recurrence
+				}
+				res.SpecFail(vh.SpecFailure{Section: "descs", Kind: kind, Input: c, Impl: impl, Spec: fmt.Sprintf("offset %d for %s (%s)", want, descTag(nd), rule), ImplEqModel: eq, Finding: fid,
+					Model: func() string {
+						if answers != nil {
+							return answers[i]
+						}
+						return ""
+					}(),
+					What: "mergeDescs: a new or shrunk file must start at offset 0; a file that only grew keeps its offset even when the scanned size is older than the offset"})
 				break
 			}
 		}
 	}
 }
 
+func genDescsCase(rng *vh.Rng) descsCase {
+	var c descsCase
+	nf := len(descPoolSizes)
+	for _, j := range rng.Perm(nf)[:rng.Range(0, 3)] {
+		real := descPoolSizes[j]
+		sz := int64(rng.PickI([]int{0, 1, 9, 10, 11, 17, 31, 64, 100}))
+		if rng.Chance(1, 2) {
+			sz = real - int64(rng.Intn(3))
+			if sz < 0 {
+				sz = 0
+			}
+		}
+		off := sz
+		switch rng.Intn(4) {
+		case 0:
+			off = int64(rng.Intn(int(sz) + 1))
+		case 1:
+			off = real // the worker has shipped everything that is in the file now (beyond the size seen last time)
+		case 2:
+			off = real + 1
+		}
+		c.Old = append(c.Old, descIn{File: j, Fake: rng.Chance(1, 6), Offset: off, Size: sz})
+	}
+	for _, j := range rng.Perm(nf)[:rng.Range(0, 3)] {
+		real := descPoolSizes[j]
+		sz := real
+		switch rng.Intn(4) {
+		case 0:
+			sz = real - int64(rng.Intn(int(real)+1)) // stale: the file grew after the scan's stat
+		case 1:
+			sz = real + int64(rng.Range(1, 3)) // the file shrank after the scan's stat
+		}
+		c.New = append(c.New, descIn{File: j, Fake: rng.Chance(1, 6), Offset: 0, Size: sz})
+	}
+	return c
+}
+
 func sectionDescs(rng *vh.Rng) {
 	sec := res.Section("descs", "unit-correspondence",
-		"the real Scanner.mergeDescs (export VerifMergeDescs) on generated old/new descriptor sets (ids from a pool of 4, offsets and sizes around each other: offset = size, size shrunk by one, grown, zero) against the Lean model (mergeDescs) and the SPEC (new id or shrunk file => offset 0; grown file keeps its offset). non-trivial = both sets non-empty, distinct by input")
+		"the real Scanner.mergeDescs (export VerifMergeDescs) on generated old/new descriptor sets over a pool of 6 real files (sizes 0,1,10,31,64,100; real ids, or another id for the same path = rotation): old offsets within / equal to / beyond the seen size and the real size, scanned sizes stale (smaller than the real size), exact, or larger — against the Lean model (mergeDescs with the second stat as an input) and the SPEC (new id => offset 0; a file that only grew keeps its offset however stale the scanned size; a truncated file => 0). non-trivial = both sets non-empty, distinct by input")
+	pool, err := newDescPool()
+	if err != nil {
+		res.Note("descs: %v", err)
+		return
+	}
+	defer os.RemoveAll(pool.dir)
 	var cases []descsCase
 	for _, raw := range lrCorpus("descs") {
 		var c descsCase
@@ -600,28 +908,16 @@ func sectionDescs(rng *vh.Rng) {
 			cases = append(cases, c)
 		}
 	}
-	ids := []string{"p1_11_1", "p1_12_1", "p2_11_1", "p3_7_2"}
+	// the stale-size class of F17b at unit level: 17 bytes scanned... here: file 3 (31 bytes), scanned 17, offset 31
+	cases = append(cases, descsCase{Old: []descIn{{File: 3, Offset: 31, Size: 17}}, New: []descIn{{File: 3, Size: 17}}})
 	n := 3000
 	if args.Thorough {
 		n = 60000
 	}
 	for i := 0; i < n; i++ {
-		var c descsCase
-		for _, j := range rng.Perm(len(ids))[:rng.Range(0, 3)] {
-			sz := int64(rng.PickI([]int{0, 1, 10, 64, 100}))
-			off := sz
-			if rng.Bool() {
-				off = int64(rng.Intn(int(sz) + 1))
-			}
-			c.Old = append(c.Old, scanner.VerifDesc{Id: ids[j], File: "/f" + ids[j][:2], Offset: off, LastSeenSize: sz})
-		}
-		for _, j := range rng.Perm(len(ids))[:rng.Range(0, 3)] {
-			sz := int64(rng.PickI([]int{0, 1, 9, 10, 11, 63, 64, 65, 100, 101}))
-			c.New = append(c.New, scanner.VerifDesc{Id: ids[j], File: "/f" + ids[j][:2], Offset: 0, LastSeenSize: sz})
-		}
-		cases = append(cases, c)
+		cases = append(cases, genDescsCase(rng))
 	}
-	checkDescs(sec, cases)
+	checkDescs(sec, pool, cases)
 	res.Done(sec)
 }
 
@@ -630,6 +926,16 @@ func replayDescs(input json.RawMessage) {
 	if err := json.Unmarshal(input, &c); err != nil {
 		res.Fatal(args.Out, "replay descs: %v", err)
 	}
+	for _, d := range append(append([]descIn{}, c.Old...), c.New...) {
+		if d.File < 0 || d.File >= len(descPoolSizes) {
+			res.Fatal(args.Out, "replay descs: file index %d out of range", d.File)
+		}
+	}
 	sec := res.Section("descs", "replay", "replay of one recorded descriptor merge")
-	checkDescs(sec, []descsCase{c})
+	pool, err := newDescPool()
+	if err != nil {
+		res.Fatal(args.Out, "replay descs: %v", err)
+	}
+	defer os.RemoveAll(pool.dir)
+	checkDescs(sec, pool, []descsCase{c})
 }
